@@ -77,8 +77,17 @@ def _check(job):
         fs = sum(x.bounds().upper_bound for x in flat)
         if not (top.lower_bound == top.upper_bound == ec == fs):
             via = any(f['class'] == 'c03-sum-mismatch:MultiSetEdit:leftover' for f in fails)
+            suffix = ':via-MultiSetEdit-leftover' if via else ''
+            if not via:
+                # which annotated edit disagrees with its own listed parts?
+                for n in d.dfs():
+                    for ed in getattr(n, 'edit_list', []):
+                        if type(ed).__name__ == 'EditDistance':
+                            parts = list(ed.edits())
+                            if sum(x.bounds().upper_bound for x in parts) != ed.bounds().upper_bound:
+                                suffix = ':editdistance-frozen-cost'
             fails.append({'what': f"three views disagree: refined top-level bounds {top}, edited_cost() {ec}, sum over "
-                                  f"get_all_edits {fs}", 'class': 'c03-views-disagree' + (':via-MultiSetEdit-leftover' if via else '')})
+                                  f"get_all_edits {fs}", 'class': 'c03-views-disagree' + suffix})
     except Exception as ex:
         fails.append({'what': f"{type(ex).__name__}: {ex}", 'class': f'c03-exception:{type(ex).__name__}'})
     for f in fails:
@@ -95,7 +104,9 @@ def bounded(tier, seed, repo_root):
     pairs, exhaustive = D.sample_pairs(docs, budget, seed)
     jobs = [('json', a, b, gt.OPTION_COMBOS[i % 9]) for i, (a, b) in enumerate(pairs)]
     base = [{"a": 1, "bbbbbbbb": 22222, "c": 3}, {"bbbbbbbX": 22222}, {"a": 1}, {"a": 1, "b": [1, 2, 3]}, [1, 2, 3, 4], [9],
-            [[1, 2], 3], {"a": {"a": 1, "b": 2, "c": 3}}, {"a": {"b": 2}}]
+            [[1, 2], 3], {"a": {"a": 1, "b": 2, "c": 3}}, {"a": {"b": 2}},
+            # (known finding editdistance-frozen-cost: a list whose last differing element is a mapping with unmatched keys)
+            [[], {"a": "ab", "c": 1}], ["ab", {"bb": 1, "c": None}]]
     for a in base:
         for b in base:
             for o in gt.OPTION_COMBOS:
